@@ -481,7 +481,8 @@ def _cli_case(seed):
             if flag:
                 args.append("--skip_deduplication")
             with contextlib.redirect_stderr(io.StringIO()), contextlib.redirect_stdout(io.StringIO()):
-                guarded(cli.main, args, allowed=[(RuntimeError, "No PSMs|Failed to calibrate"), (ValueError, "unique scoring bins"), (SystemExit, ".*")],
+                guarded(cli.main, args, allowed=[(RuntimeError, "No PSMs|Failed to calibrate"), (ValueError, "unique scoring bins"), (SystemExit, ".*"),
+                                (TypeError, "expected non-empty vector for x")],  # degenerate inputs of the real PEP estimator
                         sig="cli")
             t = _read(dest / "targets.psms")
             d = _read(dest / "decoys.psms")
